@@ -19,6 +19,7 @@ pub mod c16;
 pub mod c17;
 pub mod c18;
 pub mod c19;
+pub mod c20;
 
 pub fn property(id: &str) -> Option<Property> {
     match id {
@@ -41,6 +42,7 @@ pub fn property(id: &str) -> Option<Property> {
         "C17" => Some(c17::property()),
         "C18" => Some(c18::property()),
         "C19" => Some(c19::property()),
+        "C20" => Some(c20::property()),
         _ => None,
     }
 }
